@@ -2,6 +2,7 @@ package c12
 
 import (
 	"fmt"
+	"sort"
 	"strconv"
 	"strings"
 )
@@ -10,20 +11,33 @@ import (
 // self-test: mutant == "" behaves as the statement asks; every other value
 // plants one realistic bug.
 type simWorld struct {
-	mutant  string
-	n       int
-	defs    []classDef
-	defined []bool
-	ready   []bool
-	order   []int        // definition order
-	view    [][]classDef // the definitions each class was last merged against
-	insts   []*simInst
-	cached  map[int]string // dispatch cache (mutant stale-dispatch-cache)
+	mutant    string
+	n         int
+	defs      []classDef
+	defined   []bool
+	ready     []bool
+	order     []int       // definition order
+	cls       []*simClass // the class object currently registered under each name
+	insts     []*simInst
+	cached    map[int]string // effective methods cached under the class name, emptied by every defclass (mutant dispatch-cache-shared-by-old-and-new-class)
+	keepCache map[int]string // mutant stale-dispatch-cache: never emptied
+	ext       bool
+	lastEv    []string
+	old       map[int]int
+}
+
+// simClass is a class object: a redefinition makes a new one for the redefined name, the other classes keep theirs
+// and are merged again.
+type simClass struct {
+	cls    int
+	view   []classDef        // the definitions the class was last merged against
+	shared map[string]string // storage of the slots this class declares with :allocation :class
 }
 
 type simInst struct {
-	cls  int
-	vals map[string]string // slot -> state ("unb" | "v:..")
+	class      *simClass
+	vals       map[string]string // slot -> state ("unb" | "v:..") of the instance-allocated slots
+	precAtMake []int
 }
 
 var mutants = []string{
@@ -37,12 +51,30 @@ var mutants = []string{
 	"dispatch-in-definition-order",
 	"initarg-of-shadowed-declaration-lost",
 	"stale-dispatch-cache",
+	// sixth round
+	"default-initargs-least-specific-wins",
+	"default-initargs-not-inherited",
+	"default-initargs-evaluated-at-defclass",
+	"initform-beats-default-initarg",
+	"slot-makunbound-skips-shadowing-slot",
+	"with-slots-setq-not-written-back",
+	"class-slot-stored-per-instance",
+	"inherited-class-slot-missing",
+	"change-class-keeps-own-slots-only",
+	"old-instance-dispatches-by-list-at-creation",
+	"dispatch-cache-shared-by-old-and-new-class",
+	"after-methods-most-specific-first",
+	"init-after-methods-run-before-slots-are-filled",
+	"subtypep-direct-only",
+	"identical-redefinition-resets-subclass",
 }
 
 func newSim(n int, mutant string) *simWorld {
 	return &simWorld{mutant: mutant, n: n, defs: make([]classDef, n), defined: make([]bool, n), ready: make([]bool, n),
-		view: make([][]classDef, n), cached: map[int]string{}}
+		cls: make([]*simClass, n), cached: map[int]string{}, keepCache: map[int]string{}, old: map[int]int{}}
 }
+
+func (w *simWorld) setExt() { w.ext = true }
 
 func (w *simWorld) closureDefined(i int) bool {
 	_, ok := ancestors(w.defs, w.defined, i)
@@ -51,6 +83,7 @@ func (w *simWorld) closureDefined(i int) bool {
 
 func (w *simWorld) defclass(i int, d classDef) string {
 	redef := w.defined[i]
+	same := redef && w.defs[i].String() == d.String() && w.defs[i].bump == d.bump
 	var indirect map[int]bool
 	if redef && w.mutant == "redefinition-skips-indirect-subclasses" {
 		indirect = map[int]bool{}
@@ -75,6 +108,7 @@ func (w *simWorld) defclass(i int, d classDef) string {
 		w.defined[i] = true
 		w.order = append(w.order, i)
 	}
+	w.cls[i] = &simClass{cls: i, shared: map[string]string{}}
 	snapshot := append([]classDef(nil), w.defs...)
 	if w.mutant == "ready-single-pass" {
 		directReady := func(c int) bool {
@@ -100,22 +134,43 @@ func (w *simWorld) defclass(i int, d classDef) string {
 		if !w.defined[c] {
 			continue
 		}
-		if indirect[c] && w.view[c] != nil {
+		if indirect[c] && w.cls[c].view != nil {
 			// keeps the old definition of class i, sees everything else
-			keep := w.view[c][i]
-			w.view[c] = append([]classDef(nil), snapshot...)
-			w.view[c][i] = keep
+			keep := w.cls[c].view[i]
+			w.cls[c].view = append([]classDef(nil), snapshot...)
+			w.cls[c].view[i] = keep
 			continue
 		}
-		w.view[c] = snapshot
+		if same && w.mutant == "identical-redefinition-resets-subclass" && c != i {
+			if anc, _ := ancestors(w.defs, w.defined, c); anc[i] {
+				// the subclass loses what it inherited through the redefined class until it is defined again
+				v := append([]classDef(nil), snapshot...)
+				v[i] = classDef{supers: snapshot[i].supers, sopt: "-", uopt: "-"}
+				w.cls[c].view = v
+				continue
+			}
+		}
+		w.cls[c].view = snapshot
 	}
+	// the storage of a class slot is created when the class that declares it is defined
+	for _, sd := range d.slots(i) {
+		if sd.shared {
+			w.cls[i].shared[sd.name] = "unb"
+			if sd.form == 1 {
+				w.cls[i].shared[sd.name] = "v:" + strconv.Itoa(sd.val)
+			} else if sd.form == 2 {
+				w.cls[i].shared[sd.name] = "v:nil"
+			}
+		}
+	}
+	w.cached = map[int]string{}
 	return ""
 }
 
 func (w *simWorld) defmethods(i int) string { return "" }
 
-func (w *simWorld) prec(i int) []int {
-	defs := w.view[i]
+func (w *simWorld) precOfClass(c *simClass) []int {
+	defs := c.view
 	if w.mutant == "precedence-depth-first" {
 		var out []int
 		seen := map[int]bool{}
@@ -130,11 +185,13 @@ func (w *simWorld) prec(i int) []int {
 				walk(s)
 			}
 		}
-		walk(i)
+		walk(c.cls)
 		return out
 	}
-	return canonPrec(defs, i)
+	return canonPrec(defs, c.cls)
 }
+
+func (w *simWorld) prec(i int) []int { return w.precOfClass(w.cls[i]) }
 
 func (w *simWorld) precedence(i int) string {
 	if !w.defined[i] {
@@ -146,25 +203,92 @@ func (w *simWorld) precedence(i int) string {
 	return precText(w.prec(i)) + " standard-object t"
 }
 
+// effective declaration of slot sl for class object c: the declarations in precedence order.
+func (w *simWorld) decls(c *simClass, sl string) (decls []slotDecl, owners []int) {
+	for _, x := range w.precOfClass(c) {
+		if sd, ok := c.view[x].slot(x, sl); ok {
+			decls = append(decls, sd)
+			owners = append(owners, x)
+		}
+	}
+	return
+}
+
+// storage of a class slot: in the class object of the class with the most specific declaration.
+func (w *simWorld) sharedStore(c *simClass, owner int) map[string]string {
+	if owner == c.cls {
+		return c.shared
+	}
+	return w.cls[owner].shared
+}
+
+func (w *simWorld) evaluated() string {
+	l := append([]string(nil), w.lastEv...)
+	sort.Strings(l)
+	return strings.Join(l, ",")
+}
+
 func (w *simWorld) make(i int, sigma []string) (int, string) {
 	if !w.defined[i] || !w.ready[i] {
 		return -1, "ERR:error"
 	}
-	defs := w.view[i]
-	order := w.prec(i)
-	inst := &simInst{cls: i, vals: map[string]string{}}
-	// slots and initforms
-	for _, sl := range slotNames {
-		var decls []slotDecl
-		for _, x := range order {
-			if sd, ok := defs[x].slot(x, sl); ok {
-				decls = append(decls, sd)
-			}
+	c := w.cls[i]
+	defs := c.view
+	order := w.precOfClass(c)
+	inst := &simInst{class: c, vals: map[string]string{}, precAtMake: order}
+	w.lastEv = nil
+	set := func(sl string, decls []slotDecl, owners []int, v string) {
+		if decls[0].shared && w.mutant != "class-slot-stored-per-instance" {
+			w.sharedStore(c, owners[0])[sl] = v
+		} else {
+			inst.vals[sl] = v
 		}
+	}
+	// every supplied initarg must be valid
+	for _, a := range sigma {
+		if len(argSlotsIn(defs, order, a, w.mutant == "initarg-of-shadowed-declaration-lost")) == 0 {
+			return -1, "ERR:error"
+		}
+	}
+	filledBy := map[string]bool{} // shared-initarg-fills-one-slot: initargs that already filled a slot
+	for _, sl := range slotNames {
+		decls, owners := w.decls(c, sl)
 		if len(decls) == 0 {
 			continue
 		}
-		inst.vals[sl] = "unb"
+		if decls[0].shared && w.mutant == "inherited-class-slot-missing" && owners[0] != i {
+			continue
+		}
+		if !decls[0].shared || w.mutant == "class-slot-stored-per-instance" {
+			inst.vals[sl] = "unb"
+		}
+		declared := map[string]bool{}
+		for k, sd := range decls {
+			for _, a := range sd.initargs {
+				declared[a] = true
+			}
+			if w.mutant == "initarg-of-shadowed-declaration-lost" && k == 0 {
+				break
+			}
+		}
+		// explicit initargs, leftmost supplied wins
+		done := false
+		for _, a := range sigma {
+			if !declared[a] {
+				continue
+			}
+			if filledBy[a] && w.mutant == "shared-initarg-fills-one-slot" {
+				continue
+			}
+			filledBy[a] = true
+			set(sl, decls, owners, "v:"+strconv.Itoa(argValue[a]))
+			done = true
+			break
+		}
+		if done {
+			continue
+		}
+		// initform of the most specific declaration that has one
 		pick := -1
 		for k, sd := range decls {
 			if sd.form != 0 {
@@ -174,90 +298,160 @@ func (w *simWorld) make(i int, sigma []string) (int, string) {
 				}
 			}
 		}
+		formVal := ""
 		if 0 <= pick {
+			formVal = "v:" + strconv.Itoa(decls[pick].val)
 			if decls[pick].form == 2 {
-				inst.vals[sl] = "v:nil"
-			} else {
-				inst.vals[sl] = "v:" + strconv.Itoa(decls[pick].val)
+				formVal = "v:nil"
 			}
 		}
-	}
-	// initargs, leftmost supplied wins
-	filled := map[string]bool{}
-	for _, a := range sigma {
-		hit := false
-		for _, sl := range slotNames {
-			match := false
+		if formVal != "" && w.mutant == "initform-beats-default-initarg" {
+			set(sl, decls, owners, formVal)
+			continue
+		}
+		// default initargs: the most specific class that gives a default for an initarg of the slot
+		for _, a := range argOrder {
+			if !declared[a] || done {
+				continue
+			}
+			found, fx := -1, -1
 			for k, x := range order {
-				_ = k
-				sd, ok := defs[x].slot(x, sl)
-				if !ok {
-					continue
+				if w.mutant == "default-initargs-not-inherited" && k != 0 {
+					break
 				}
-				if inList(a, sd.initargs) {
-					match = true
-				}
-				if w.mutant == "initarg-of-shadowed-declaration-lost" {
-					break // only the most specific declaration of the slot counts
+				if v, has := defs[x].defaults(x)[a]; has {
+					found, fx = v, x
+					if w.mutant != "default-initargs-least-specific-wins" {
+						break
+					}
 				}
 			}
-			if !match {
-				continue
-			}
-			if hit && w.mutant == "shared-initarg-fills-one-slot" {
-				continue
-			}
-			hit = true
-			if !filled[sl] {
-				inst.vals[sl] = "v:" + strconv.Itoa(argValue[a])
-				filled[sl] = true
+			if 0 <= found {
+				if w.mutant != "default-initargs-evaluated-at-defclass" {
+					w.lastEv = append(w.lastEv, defaultLabel(fx, a))
+				}
+				set(sl, decls, owners, "v:"+strconv.Itoa(found))
+				done = true
 			}
 		}
-		if !hit {
-			return -1, "ERR:error" // invalid initarg
+		if done {
+			continue
+		}
+		if formVal != "" {
+			if decls[0].shared && w.mutant != "class-slot-stored-per-instance" {
+				// a class slot keeps the value it has; the initform only fills an unbound one
+				if st := w.sharedStore(c, owners[0]); st[sl] == "unb" || st[sl] == "" {
+					st[sl] = formVal
+				}
+			} else {
+				inst.vals[sl] = formVal
+			}
 		}
 	}
 	w.insts = append(w.insts, inst)
 	return len(w.insts) - 1, "ok"
 }
 
-func (w *simWorld) slots(h int) []string {
-	out := make([]string, len(slotNames))
-	for k, sl := range slotNames {
-		if v, ok := w.insts[h].vals[sl]; ok {
-			out[k] = v
-		} else {
-			out[k] = "none"
+// argSlotsIn: slots for which key is a declared initarg, by the declarations along order.
+func argSlotsIn(defs []classDef, order []int, key string, mostSpecificOnly bool) []string {
+	var out []string
+	for _, sl := range slotNames {
+		match := false
+		for _, x := range order {
+			sd, ok := defs[x].slot(x, sl)
+			if !ok {
+				continue
+			}
+			if inList(key, sd.initargs) {
+				match = true
+			}
+			if mostSpecificOnly {
+				break
+			}
+		}
+		if match {
+			out = append(out, sl)
 		}
 	}
 	return out
 }
 
+func (w *simWorld) slotState(in *simInst, sl string) string {
+	decls, owners := w.decls(in.class, sl)
+	if len(decls) == 0 {
+		return "none"
+	}
+	if decls[0].shared && w.mutant != "class-slot-stored-per-instance" {
+		if w.mutant == "inherited-class-slot-missing" && owners[0] != in.class.cls {
+			return "none"
+		}
+		if v, ok := w.sharedStore(in.class, owners[0])[sl]; ok {
+			return v
+		}
+		return "unb"
+	}
+	if v, ok := in.vals[sl]; ok {
+		return v
+	}
+	// a slot the class gained after the instance was made
+	for _, sd := range decls {
+		if sd.form == 1 {
+			return "v:" + strconv.Itoa(sd.val)
+		} else if sd.form == 2 {
+			return "v:nil"
+		}
+	}
+	return "unb"
+}
+
+func (w *simWorld) setSlot(in *simInst, sl, v string) {
+	decls, owners := w.decls(in.class, sl)
+	if len(decls) == 0 {
+		return
+	}
+	if decls[0].shared && w.mutant != "class-slot-stored-per-instance" {
+		w.sharedStore(in.class, owners[0])[sl] = v
+		return
+	}
+	in.vals[sl] = v
+}
+
+func (w *simWorld) dump(in *simInst) string {
+	var out []string
+	for _, sl := range slotNames {
+		out = append(out, w.slotState(in, sl))
+	}
+	return strings.Join(out, ",")
+}
+
+func (w *simWorld) slots(h int) []string { return strings.Split(w.dump(w.insts[h]), ",") }
+
 func (w *simWorld) slotValue(h int, slot string) string {
-	v, ok := w.insts[h].vals[slot]
-	if !ok || v == "unb" {
+	v := w.slotState(w.insts[h], slot)
+	if v == "none" || v == "unb" {
 		return "ERR:unbound-slot"
 	}
 	return v
 }
 
 func (w *simWorld) typeps(h int, n int) string {
-	i := w.insts[h].cls
-	in := map[int]bool{}
+	in := w.insts[h]
+	i := in.class.cls
+	is := map[int]bool{}
 	if w.mutant == "typep-direct-only" {
-		in[i] = true
-		for _, s := range w.view[i][i].supers {
-			in[s] = true
+		is[i] = true
+		for _, s := range in.class.view[i].supers {
+			is[s] = true
 		}
 	} else {
-		for _, x := range w.prec(i) {
-			in[x] = true
+		for _, x := range w.precOfClass(in.class) {
+			is[x] = true
 		}
 	}
 	var out []string
 	for j := 0; j < n; j++ {
 		v := "nil"
-		if in[j] {
+		if is[j] {
 			v = "t"
 		}
 		out = append(out, cname(j)+"="+v)
@@ -266,11 +460,12 @@ func (w *simWorld) typeps(h int, n int) string {
 }
 
 func (w *simWorld) classOf(h int, i int) string {
-	return "eq=t name=" + cname(w.insts[h].cls)
+	in := w.insts[h]
+	return "eq=" + map[bool]string{true: "t", false: "nil"}[in.class == w.cls[i]] + " name=" + cname(in.class.cls)
 }
 
-func (w *simWorld) dispatchOf(i int) string {
-	order := w.prec(i)
+func (w *simWorld) dispatchBy(order []int) string {
+	i := order[0]
 	if w.mutant == "dispatch-in-definition-order" {
 		in := map[int]bool{}
 		for _, x := range order {
@@ -287,58 +482,242 @@ func (w *simWorld) dispatchOf(i int) string {
 	for _, x := range order {
 		tr = append(tr, cname(x))
 	}
-	return "val=" + cname(i) + " trace=" + strings.Join(tr, ",")
+	d := expectedDispatch(tr, w.ext)
+	if w.ext && w.mutant == "after-methods-most-specific-first" {
+		var t2 []string
+		for _, c := range tr {
+			t2 = append(t2, "r-"+c)
+		}
+		for _, c := range tr {
+			t2 = append(t2, "b-"+c)
+		}
+		for _, c := range tr {
+			t2 = append(t2, "a-"+c)
+		}
+		d = "val=" + tr[0] + " trace=" + strings.Join(t2, ",")
+	}
+	return d
 }
 
 func (w *simWorld) dispatch(h int) string {
-	i := w.insts[h].cls
+	in := w.insts[h]
+	i := in.class.cls
+	order := w.precOfClass(in.class)
+	if w.mutant == "old-instance-dispatches-by-list-at-creation" {
+		order = in.precAtMake
+	}
 	if w.mutant == "stale-dispatch-cache" {
+		if c, ok := w.keepCache[i]; ok {
+			return c
+		}
+		w.keepCache[i] = w.dispatchBy(order)
+	}
+	if w.mutant == "dispatch-cache-shared-by-old-and-new-class" {
+		// the effective method is cached under the class NAME
 		if c, ok := w.cached[i]; ok {
 			return c
 		}
-		w.cached[i] = w.dispatchOf(i)
+		w.cached[i] = w.dispatchBy(order)
 	}
-	return w.dispatchOf(i)
+	return w.dispatchBy(order)
 }
+
+func (w *simWorld) flushDispatch() { w.cached = map[int]string{} }
 
 func (w *simWorld) accessor(hx, hy int, slot string) string {
 	x, y := w.insts[hx], w.insts[hy]
-	dump := func(in *simInst) string {
-		var out []string
-		for _, sl := range slotNames {
-			if v, ok := in.vals[sl]; ok {
-				out = append(out, v)
-			} else {
-				out = append(out, "none")
-			}
-		}
-		return strings.Join(out, ",")
-	}
-	x0, y0 := dump(x), dump(y)
+	x0, y0 := w.dump(x), w.dump(y)
 	read := "unb"
-	if v := x.vals[slot]; strings.HasPrefix(v, "v:") {
+	if v := w.slotState(x, slot); strings.HasPrefix(v, "v:") {
 		read = v[2:] + "," + v[2:]
 	}
-	x.vals[slot] = "v:901"
-	x1, y1 := dump(x), dump(y)
-	x.vals[slot] = "v:902"
+	w.setSlot(x, slot, "v:901")
+	x1, y1 := w.dump(x), w.dump(y)
+	w.setSlot(x, slot, "v:902")
 	if w.mutant == "writer-leaks-into-other-slot" {
 		for _, sl := range slotNames {
-			if _, ok := x.vals[sl]; ok {
-				x.vals[sl] = "v:902"
+			if w.slotState(x, sl) != "none" {
+				w.setSlot(x, sl, "v:902")
 			}
 		}
 	}
-	x2, y2 := dump(x), dump(y)
+	x2, y2 := w.dump(x), w.dump(y)
 	return fmt.Sprintf("x0=%s;y0=%s;read=%s;x1=%s;y1=%s;x2=%s;y2=%s", x0, y0, read, x1, y1, x2, y2)
 }
 
 func (w *simWorld) warm(i int) {
-	if w.defined[i] && w.ready[i] && w.mutant == "stale-dispatch-cache" {
-		if _, ok := w.cached[i]; !ok {
-			w.cached[i] = w.dispatchOf(i)
+	if !w.defined[i] || !w.ready[i] {
+		return
+	}
+	if w.ext {
+		if h, res := w.make(i, nil); res == "ok" {
+			w.old[i] = h
+			_ = w.dispatch(h)
+		}
+		return
+	}
+	if w.mutant == "stale-dispatch-cache" {
+		if _, ok := w.keepCache[i]; !ok {
+			w.keepCache[i] = w.dispatchBy(w.prec(i))
 		}
 	}
 }
 
 func (w *simWorld) close() {}
+
+// ---------------------------------------------------------------- extended probes
+
+func (w *simWorld) initTrace(h int) string {
+	in := w.insts[h]
+	order := w.precOfClass(in.class)
+	var names []string
+	for _, p := range []string{"sh-", "in-"} {
+		if w.mutant == "after-methods-most-specific-first" {
+			for _, x := range order {
+				names = append(names, p+cname(x))
+			}
+		} else {
+			for k := len(order) - 1; 0 <= k; k-- {
+				names = append(names, p+cname(order[k]))
+			}
+		}
+	}
+	saw := "final"
+	if w.mutant == "init-after-methods-run-before-slots-are-filled" {
+		for _, sl := range slotNames {
+			if st := w.slotState(in, sl); st != "none" && st != "unb" {
+				saw = "other-state-in-sh"
+			}
+		}
+	}
+	return strings.Join(names, ",") + " saw=" + saw
+}
+
+func (w *simWorld) slotops(hx, hy int, slot string) string {
+	x, y := w.insts[hx], w.insts[hy]
+	var out []string
+	out = append(out, "x0="+w.dump(x), "y0="+w.dump(y))
+	if !(w.mutant == "slot-makunbound-skips-shadowing-slot" && 1 < len(func() []slotDecl { d, _ := w.decls(x.class, slot); return d }())) {
+		w.setSlot(x, slot, "unb")
+	}
+	out = append(out, "x1="+w.dump(x), "y1="+w.dump(y))
+	if w.slotState(x, slot) == "unb" {
+		out = append(out, "rd=err")
+	} else {
+		out = append(out, "rd="+w.slotState(x, slot))
+	}
+	w.setSlot(x, slot, "v:903")
+	out = append(out, "x2="+w.dump(x), "y2="+w.dump(y), "ws="+w.slotState(x, slot))
+	if w.mutant != "with-slots-setq-not-written-back" {
+		w.setSlot(x, slot, "v:904")
+	}
+	out = append(out, "x3="+w.dump(x), "y3="+w.dump(y))
+	return strings.Join(out, ";")
+}
+
+func (w *simWorld) subtypeps(i, n int) string {
+	is := map[int]bool{}
+	if w.mutant == "subtypep-direct-only" {
+		is[i] = true
+		for _, s := range w.cls[i].view[i].supers {
+			is[s] = true
+		}
+	} else {
+		for _, x := range w.prec(i) {
+			is[x] = true
+		}
+	}
+	var out []string
+	for j := 0; j < n; j++ {
+		v := "nil"
+		if is[j] {
+			v = "t"
+		}
+		out = append(out, cname(j)+"="+v)
+	}
+	return strings.Join(out, " ")
+}
+
+func (w *simWorld) share(hx, hy int, others []int, slot string, cls int) string {
+	x, y := w.insts[hx], w.insts[hy]
+	before := make([]string, len(others))
+	for k, h := range others {
+		before[k] = w.dump(w.insts[h])
+	}
+	out := []string{"x0=" + w.dump(x), "y0=" + w.dump(y)}
+	w.setSlot(x, slot, "v:905")
+	out = append(out, "x1="+w.dump(x), "y1="+w.dump(y))
+	for k, h := range others {
+		out = append(out, fmt.Sprintf("o%d=%s>%s", k, before[k], w.dump(w.insts[h])))
+	}
+	hz, res := w.make(cls, nil)
+	if res != "ok" {
+		return res + "@make-instance"
+	}
+	out = append(out, "z="+w.dump(w.insts[hz]), "y2="+w.dump(y))
+	return strings.Join(out, ";")
+}
+
+func (w *simWorld) makeLogged(i int, sigma []string) (int, string) { return w.make(i, sigma) }
+
+func (w *simWorld) changeClass(h, j, n int) string {
+	if r := w.changeClass0(h, j); r != "ok" {
+		return "res=" + r
+	}
+	return fmt.Sprintf("res=ok;after=%s;cof=%s;typep=%s;disp=%s", w.dump(w.insts[h]), w.classOf(h, j), w.typeps(h, n), w.dispatch(h))
+}
+
+func (w *simWorld) changeClass0(h, j int) string {
+	if !w.defined[j] || !w.ready[j] {
+		return "ERR:error"
+	}
+	in := w.insts[h]
+	oldStates := map[string]string{}
+	for _, sl := range slotNames {
+		oldStates[sl] = w.slotState(in, sl)
+	}
+	in.class = w.cls[j]
+	in.vals = map[string]string{}
+	in.precAtMake = w.precOfClass(in.class)
+	for _, sl := range slotNames {
+		decls, owners := w.decls(in.class, sl)
+		if len(decls) == 0 || decls[0].shared {
+			continue
+		}
+		if w.mutant == "change-class-keeps-own-slots-only" && owners[0] != j {
+			in.vals[sl] = "gone"
+			continue
+		}
+		if st := oldStates[sl]; st != "none" {
+			in.vals[sl] = st
+			continue
+		}
+		in.vals[sl] = "unb"
+		for _, sd := range decls {
+			if sd.form == 1 {
+				in.vals[sl] = "v:" + strconv.Itoa(sd.val)
+				break
+			} else if sd.form == 2 {
+				in.vals[sl] = "v:nil"
+				break
+			}
+		}
+	}
+	if w.mutant == "change-class-keeps-own-slots-only" {
+		for sl, v := range in.vals {
+			if v == "gone" {
+				in.vals[sl] = "none"
+			}
+		}
+	}
+	return "ok"
+}
+
+func (w *simWorld) oldInst(i int) (int, bool) {
+	h, ok := w.old[i]
+	return h, ok
+}
+
+func (w *simWorld) precOf(h int) string {
+	return precText(w.precOfClass(w.insts[h].class)) + " standard-object t"
+}
